@@ -158,21 +158,32 @@ def r2_r3(run: Run, src):
         if c.kind == 'branch-role':
             continue
         run.bad('C08.R2', 'Executor.get_sheet/roles', c.kind, c.msg, loc=loc_of(gs.module.path, c.node))
+    # the grid: nested loops with appends, or a nested comprehension [[cell for column in ...] for row in ...]
     fors = [n for n in ast.walk(gs.node) if isinstance(n, ast.For)]
     outer = [f for f in fors if any(isinstance(g, ast.For) and g is not f for g in ast.walk(f))]
-    ok = len(fors) == 2 and len(outer) == 1 and 'last_row' in ast.unparse(outer[0].iter) and \
-        'last_column' in ast.unparse([f for f in fors if f is not outer[0]][0].iter)
+    comps = [c for c in ast.walk(gs.node) if isinstance(c, ast.ListComp) and isinstance(c.elt, ast.ListComp)]
+    from ..paths import path_conditions
+    calls = [c for c in ast.walk(gs.node) if isinstance(c, ast.Call) and ast.unparse(c.func) == 'self.get_cell']
+    if len(fors) == 2 and len(outer) == 1 and not comps:
+        inner = [f for f in fors if f is not outer[0]][0]
+        o_it, i_it = ast.unparse(outer[0].iter), ast.unparse(inner.iter)
+        delegated = len(calls) == 1 and any(c is calls[0] for c in ast.walk(inner))
+        apps = [c for c in ast.walk(gs.node) if isinstance(c, ast.Call) and isinstance(c.func, ast.Attribute) and c.func.attr == 'append']
+        cond_apps = [a for a in apps if path_conditions(gs.node, a, parent_map(gs.node))]
+        one_each = len(apps) == 2 and not cond_apps
+    elif len(comps) == 1 and not fors and len(comps[0].generators) == 1 and len(comps[0].elt.generators) == 1:
+        o_it, i_it = ast.unparse(comps[0].generators[0].iter), ast.unparse(comps[0].elt.generators[0].iter)
+        delegated = len(calls) == 1 and any(c is calls[0] for c in ast.walk(comps[0].elt.elt))
+        one_each = not comps[0].generators[0].ifs and not comps[0].elt.generators[0].ifs
+    else:
+        raise AnalysisError('C08.R2', 'get_sheet builds its grid neither with two nested loops nor with a nested comprehension')
+    ok = 'last_row' in o_it and 'last_column' in i_it and 'last_column' not in o_it and 'last_row' not in i_it
     run.check(ok and not [c for c in rc.clashes if c.kind != 'branch-role'], 'C08.R2', 'Executor.get_sheet/grid', 'grid',
               'get_sheet does not iterate range(last_row) in the outer loop and range(last_column) in the inner loop of the addressed '
               'sheet', fact='rows outer x columns inner', loc=loc_of(gs.module.path, gs.node))
-    calls = [c for c in ast.walk(gs.node) if isinstance(c, ast.Call) and ast.unparse(c.func) == 'self.get_cell']
-    run.check(len(calls) == 1 and any(c is calls[0] for f in fors if f is not (outer[0] if outer else None) for c in ast.walk(f)),
-              'C08.R2', 'Executor.get_sheet/delegation', 'not-delegating', 'get_sheet does not obtain each entry through get_cell',
+    run.check(delegated, 'C08.R2', 'Executor.get_sheet/delegation', 'not-delegating', 'get_sheet does not obtain each entry through get_cell',
               fact='self.get_cell(Cell(...)) per coordinate', loc=loc_of(gs.module.path, gs.node))
-    apps = [c for c in ast.walk(gs.node) if isinstance(c, ast.Call) and isinstance(c.func, ast.Attribute) and c.func.attr == 'append']
-    from ..paths import path_conditions
-    cond_apps = [a for a in apps if path_conditions(gs.node, a, parent_map(gs.node))]
-    run.check(len(apps) == 2 and not cond_apps, 'C08.R2', 'Executor.get_sheet/one-entry-per-coordinate', 'entries',
+    run.check(one_each, 'C08.R2', 'Executor.get_sheet/one-entry-per-coordinate', 'entries',
               'the grid does not receive exactly one entry per coordinate (conditional or extra appends)', fact='one entry per coordinate',
               loc=loc_of(gs.module.path, gs.node))
     # R3 one normaliser
